@@ -39,6 +39,8 @@ inductive Dump where
   deriving Repr, DecidableEq
 
 inductive Outcome where
+  | returnsStream           -- the method returns an iterator / generator: registered as an item stream, answered
+                            -- with an exception-flagged ITEMSTREAMRESULT reply; the connection stays open
   | returns (d : Dump)
   | raises (e : Exc) (serialisable : Bool)
   deriving Repr, DecidableEq
@@ -164,6 +166,9 @@ def handleRequest (it : Item) : ReqResult :=
           -- runs in its own thread; nothing is sent, nothing can propagate
           { execs := [md.token], tracks := md.tracks, untracks := md.untracks, session := md.session }
         else match md.outcome with
+          | .returnsStream =>
+            { reply := some (errReply m), execs := [md.token], tracks := md.tracks, untracks := md.untracks,
+              session := md.session }
           | .returns .ok =>
             { reply := some ⟨MSG_RESULT, m.seq, m.serId, false, md.setsAnn⟩, execs := [md.token],
               tracks := md.tracks, untracks := md.untracks, session := md.session }
